@@ -390,12 +390,12 @@ func (rn *runner) limitPhase() {
 		return common.Hex(b)
 	}
 	pairs := []pr{
-		{mk(9, 'a'), mk(4, 'Q'), ""},  // shrinking
-		{mk(3, 'a'), mk(8, 'Q'), ""},  // growing
-		{mk(5, 'a'), mk(5, 'Q'), ""},  // same length
-		{mk(0, 'a'), mk(4, 'Q'), ""},  // from empty
-		{mk(4, 'a'), mk(0, 'Q'), ""},  // to empty
-		{"absent", mk(3, 'Q'), ""},    // created
+		{mk(9, 'a'), mk(4, 'Q'), ""},   // shrinking
+		{mk(3, 'a'), mk(8, 'Q'), ""},   // growing
+		{mk(5, 'a'), mk(5, 'Q'), ""},   // same length
+		{mk(0, 'a'), mk(4, 'Q'), ""},   // from empty
+		{mk(4, 'a'), mk(0, 'Q'), ""},   // to empty
+		{"absent", mk(3, 'Q'), ""},     // created
 		{mk(40, 'a'), mk(20, 'Q'), ""}, // shrinking, longer
 	}
 	const old = "6162636465666768"
